@@ -3,15 +3,15 @@
 (* exhaustively (sched is part of the state: every complete interleaving is a distinct terminal    *)
 (* state) or with -simulate; each complete schedule is printed as a REPLAY line and executed on    *)
 (* the real Key under the deterministic scheduler by harness/src/bin/c03.rs (memo-replay).         *)
-EXTENDS KeyHashMemo, Json, Sequences
+(* Comparers (KeyHashMemoEq.tla, as coded) take part: one grant per ==/cmp evaluation.             *)
+EXTENDS KeyHashMemoEq, Json, Sequences
 VARIABLES sched, kind0
-SimInit == \E kind \in InitKinds : InitFor(kind) /\ kind0 = kind /\ sched = <<>>
-SimNext == \E t \in Threads :
-             /\ \/ LoadHashed(t) \/ LoadHash(t) \/ StoreHash(t) \/ StoreHashed(t)
-                \/ CloneLoadHashed(t) \/ CloneLoadHash(t) \/ CloneGetHash(t) \/ CompareAsCoded(t)
-             /\ sched' = Append(sched, <<t, pc[t]>>)
-             /\ UNCHANGED kind0
-SimSpec == SimInit /\ [][SimNext]_<<vars, sched, kind0>>
-Emit == Done => PrintT(<<"REPLAY", ToJson([getters |-> Cardinality(Getters), cloners |-> Cardinality(Cloners),
-                                             comparers |-> Cardinality(Comparers), calls |-> NCalls, init |-> kind0, sched |-> sched])>>)
+SimInit == \E kind \in InitKinds : InitFor(kind) /\ CInitEq /\ kind0 = kind /\ sched = <<>>
+SimNext == /\ \/ \E t \in Threads : MemoStep(t) /\ sched' = Append(sched, <<t, pc[t]>>)
+              \/ \E t \in Comparers : CompareAsCoded(t) /\ sched' = Append(sched, <<t, qpc[t]>>)
+           /\ UNCHANGED kind0
+SimSpec == SimInit /\ [][SimNext]_<<allvars, sched, kind0>>
+Emit == DoneEq => PrintT(<<"REPLAY", ToJson([getters |-> Cardinality(Getters), cloners |-> Cardinality(Cloners),
+                                               comparers |-> Cardinality(Comparers), calls |-> NCalls, init |-> kind0,
+                                               sched |-> sched])>>)
 =============================================================================
